@@ -16,11 +16,20 @@ type Seg struct {
 }
 
 type Strategy struct {
-	Kind string  `json:"kind"` // random | pct | rr | boundary | none | replay
+	Kind string  `json:"kind"` // random | pct | rr | boundary | sweep | none | replay
 	P    float64 `json:"p,omitempty"`
 	D    int     `json:"d,omitempty"`
 	Q    int     `json:"q,omitempty"`
 	Seed uint64  `json:"seed,omitempty"`
+	// sweep: exactly one preemption, of task Task at the (Skip+1)-th time it
+	// reaches site Site; every other task then runs to completion before Task
+	// resumes. The target is drawn UNIFORMLY OVER DISTINCT SITES of the task's
+	// solo profile, so cold statements (a two-statement update on a rare path)
+	// are preempted as often as hot loops, which a random walk never achieves.
+	Task     int  `json:"task,omitempty"`
+	Site     int  `json:"site,omitempty"`
+	Skip     int  `json:"skip,omitempty"`
+	Resolved bool `json:"resolved,omitempty"`
 }
 
 func (s Strategy) String() string {
@@ -31,13 +40,15 @@ func (s Strategy) String() string {
 		return fmt.Sprintf("pct(d=%d)", s.D)
 	case "rr":
 		return fmt.Sprintf("rr(q<=%d)", s.Q)
+	case "sweep":
+		return fmt.Sprintf("sweep(task=%d site=%s skip=%d)", s.Task, siteName(s.Site), s.Skip)
 	}
 	return s.Kind
 }
 
 func genStrategy(r *Rng) Strategy {
 	st := Strategy{Seed: r.U64()}
-	switch r.Intn(10) {
+	switch r.Intn(13) {
 	case 0, 1, 2, 3:
 		st.Kind = "random"
 		st.P = []float64{0.002, 0.01, 0.05, 0.2, 0.5, 1}[r.Intn(6)]
@@ -49,6 +60,8 @@ func genStrategy(r *Rng) Strategy {
 		st.Q = r.PickI(1, 2, 3, 5, 10, 40, 200)
 	case 9:
 		st.Kind = "boundary"
+	case 10, 11, 12:
+		st.Kind = "sweep" // target resolved after the solo profile is known
 	}
 	return st
 }
@@ -91,6 +104,9 @@ type Sim struct {
 	lowPrio  int
 	// rr
 	quantum int
+	// sweep
+	fired    bool
+	skipLeft int
 
 	monitors []func(site int)
 
@@ -103,6 +119,7 @@ type Sim struct {
 	evHash       uint64 // running hash over every (task, site) event
 	schedHash    uint64 // hash over context switches only
 	switches     int
+	overlaps     int // units entered while another task was parked inside a unit
 	preemptIn    int // preemptions strictly inside a unit while another task is parked inside a unit
 	sitePairs    map[[2]int]struct{}
 	overlapPairs map[string]int64
@@ -129,6 +146,7 @@ func newSim(strat Strategy, replay []Seg, totalSteps int64) *Sim {
 	if strat.Kind == "replay" {
 		s.replay = replay
 	}
+	s.skipLeft = strat.Skip
 	return s
 }
 
@@ -240,6 +258,17 @@ func (s *Sim) decide(t *Task, site int) bool {
 		return s.quantum <= 0
 	case "boundary":
 		return site == 0 && s.rng.Bool()
+	case "sweep":
+		if !s.fired && t.id == s.strat.Task && site == s.strat.Site && site > 0 {
+			if s.skipLeft <= 0 {
+				s.fired = true
+				s.probes["sweep_fired"]++
+				s.sitePairs[[2]int{site, -1000}] = struct{}{}
+				return true
+			}
+			s.skipLeft--
+		}
+		return false
 	}
 	return false
 }
@@ -302,6 +331,20 @@ func (s *Sim) pickNext() *Task {
 		s.quantum = 1 + s.rng.Intn(s.strat.Q)
 		return s.cyclicAfter(live)
 	case "none":
+		return live[0]
+	case "sweep":
+		tgt := s.strat.Task
+		if !s.fired {
+			if tgt >= 0 && tgt < len(s.tasks) && !s.tasks[tgt].done {
+				return s.tasks[tgt]
+			}
+			return live[0]
+		}
+		for _, t := range live {
+			if t.id != tgt {
+				return t
+			}
+		}
 		return live[0]
 	}
 	// random, boundary
@@ -397,6 +440,7 @@ func (s *Sim) noteOverlap(t *Task, kind string) {
 	for _, o := range s.tasks {
 		if o != t && !o.done && o.inUnit {
 			s.overlapPairs[o.unitKind+"|"+kind]++
+			s.overlaps++
 		}
 	}
 }
@@ -481,4 +525,44 @@ func loadCap(ref int64) int64 {
 		c = 200000
 	}
 	return c
+}
+
+// resolveSweep fixes the target of a sweep strategy from the solo profile of
+// the scenario: a task (among the first nTasks tasks), one of the DISTINCT
+// sites its units visit when run alone (uniformly), and which visit.
+func resolveSweep(st *Strategy, tasks []TaskSpec, refs map[string]unitRef) {
+	if st.Kind != "sweep" || st.Resolved {
+		return
+	}
+	r := NewRng(st.Seed ^ 0x5eeb)
+	st.Resolved = true
+	var cand []int
+	for ti := range tasks {
+		if len(tasks[ti].Units) > 0 {
+			cand = append(cand, ti)
+		}
+	}
+	if len(cand) == 0 {
+		return
+	}
+	st.Task = cand[r.Intn(len(cand))]
+	agg := map[int]int32{}
+	for ui := range tasks[st.Task].Units {
+		for site, n := range refs[tasks[st.Task].Units[ui].key()].sites {
+			agg[site] += n
+		}
+	}
+	if len(agg) == 0 {
+		return
+	}
+	sites := make([]int, 0, len(agg))
+	for site := range agg {
+		sites = append(sites, site)
+	}
+	sortInts(sites)
+	st.Site = sites[r.Intn(len(sites))]
+	st.Skip = r.Intn(int(agg[st.Site]))
+	if r.Chance(0.5) {
+		st.Skip = 0 // the first visit is the one lazily initialised state depends on
+	}
 }
